@@ -12,7 +12,7 @@ import numpy as np
 
 from ..core import import_library
 from ..gen import terms as G
-from ..probe import Probe, Reach
+from ..probe import Probe, Reach, check_unmutated, snapshot_arrays
 from ..ref import terms as R
 
 WORKERS = {"quick": 1, "thorough": 16}
@@ -43,7 +43,7 @@ class TsukamotoMonitor:
         fl = self.fl
         for kind in R.MONOTONIC:
             cls = getattr(fl, kind)
-            self.orig_tsukamoto[kind] = probe.wrap(cls, "tsukamoto", after=self._after)
+            self.orig_tsukamoto[kind] = probe.wrap(cls, "tsukamoto", before=snapshot_arrays, after=self._after)
             self.orig_membership[kind] = cls.__dict__["membership"]
         probe.wrap(fl.Term, "tsukamoto", after=self._after_default, label="Term.tsukamoto(default)")
 
@@ -58,12 +58,15 @@ class TsukamotoMonitor:
 
     def _after(self, args, kwargs, token, result, exc):
         ctx = self.ctx
-        term, y = args[0], args[1]
+        term, y = args[0], check_unmutated(ctx, f"{type(args[0]).__name__}.tsukamoto", args, token)
         got = R.params_of(term)
         if got is None or not R.valid(*got):
             ctx.hit("out_of_domain:invalid or default parameters")
             return
         kind, p, h = got
+        if kind in ("SShape", "ZShape") and not p[0] < p[1]:
+            ctx.hit("out_of_domain:vertical edge (a step function has no inverse)")
+            return
         case = {"term": kind, "params": list(p), "height": h}
         try:
             Y = np.asarray(y, dtype=float)
@@ -182,7 +185,7 @@ def run(ctx):
             kind = kinds[i % len(kinds)]
             lo = G.snap(rnd.uniform(-10, 5), 1)
             hi = G.snap(lo + rnd.choice([1.0, 2.5, 10.0, 0.5, 100.0]), 1)
-            spec = G.shape_term(rnd, "t", lo, hi, kind=kind, d=rnd.choice([1, 3, 6]))
+            spec = G.shape_term(rnd, "t", lo, hi, kind=kind, d=rnd.choice([1, 3, 6]), degenerate=False)
             term = G.build_term(fl, spec)
             ys = y_values(rnd, spec["height"])
             form = i // len(kinds) % 3
